@@ -485,13 +485,23 @@ func (t *threshold) exceededOn(e Event) (exceeded, ok bool) {
 		}
 	}
 	// the comparison itself, as a conjunct of the condition
-	for _, cj := range conjuncts(c) {
+	cjs := conjuncts(c)
+	for _, cj := range cjs {
 		for _, cm := range t.cmps {
 			if ast.Unparen(cj) == cm.Expr {
 				if e.Taken != neg {
 					return true, true // all conjuncts hold
 				}
-				// the conjunction is false: with the guard `tol >= 0` this is "not exceeded or tolerance disabled"
+				// the conjunction is false: this means "not exceeded (or tolerance disabled)"
+				// only if every other conjunct is the tolerance guard itself
+				for _, other := range cjs {
+					if ast.Unparen(other) == cm.Expr {
+						continue
+					}
+					if len(FindCmps(t.info, other, t.isTol, nil)) == 0 || len(conjuncts(other)) != 1 {
+						return false, false
+					}
+				}
 				return false, true
 			}
 		}
@@ -880,7 +890,8 @@ func rulesC03(r *Run) {
 	}
 	ruleBlockEndRouting(r, "R4")
 	ruleFinalBlocks(r, "R4")
-	r.Expect("R4", 4)
+	ruleExamineBypasses(r, "R4")
+	r.Expect("R4", 5)
 }
 
 func boolStr(b bool) string {
